@@ -6,7 +6,16 @@ from hypothesis import strategies as st
 from ..runner import Check, Violation, jhash
 from .. import dbfault
 
-TARGETS = {"channel": 1, "usage": 2}
+class _Targets(dict):
+    """Current schema versions, read from the repository at run time."""
+    def __missing__(self, name):
+        from wormhole_mailbox_server import database
+        v = {"channel": database.CHANNELDB_TARGET_VERSION, "usage": database.USAGEDB_TARGET_VERSION}[name]
+        self[name] = v
+        return v
+
+
+TARGETS = _Targets()
 
 
 def _db():
@@ -173,8 +182,8 @@ case_strategy = st.one_of(
     st.tuples(st.just("random"), st.binary(min_size=1, max_size=4096)),
     st.tuples(st.just("magic"), st.binary(max_size=2048)),
     st.tuples(st.just("truncated"), st.sampled_from(["channel", "usage"]), st.integers(1, 10 ** 6)),
-    st.tuples(st.just("valid"), st.just("channel"), st.sampled_from([1, 1, 1, 2, 3, 5, 2 ** 31]), channel_rows()),
-    st.tuples(st.just("valid"), st.just("usage"), st.sampled_from([2, 2, 2, 3, 4, 5, 2 ** 31]), usage_rows()),
+    st.tuples(st.just("valid"), st.just("channel"), st.sampled_from([0, 0, 0, 1, 2, 4, 2 ** 31]), channel_rows()),
+    st.tuples(st.just("valid"), st.just("usage"), st.sampled_from([0, 0, 0, 1, 2, 3, 2 ** 31]), usage_rows()),
     st.tuples(st.just("fkviolation"), channel_rows()),
     st.tuples(st.just("noversionrow"), st.sampled_from(["channel", "usage"])),
     st.tuples(st.just("missing")),
@@ -222,6 +231,7 @@ def run_input_case(case, entry):
             expect = "reject_if_raises" if cut else "reject"
         elif kind == "valid":
             name, version, rows = case[1], case[2], case[3]
+            version = TARGETS[name] + version if version < 2 ** 31 else version      # offset from the current version
             build_db(path, name, version, rows)
             expect = "keep" if version == TARGETS[name] else "reject"
         elif kind == "fkviolation":
@@ -347,7 +357,7 @@ class C19(Check):
             "database of the right version whose schema equals a fresh one; the next create_or_upgrade_* succeeds and yields a "
             "complete database; stray temp files are allowed. (b) Hypothesis inputs for pre-existing content: empty file, random "
             "bytes, SQLite magic + junk, a valid database truncated at an arbitrary offset, valid databases of either schema with "
-            "arbitrary rows and version in {current, 2..5, 2^31}, a database with a foreign-key violation, a database without "
+            "arbitrary rows and version in {current, current+1..current+4, 2^31}, a database with a foreign-key violation, a database without "
             "version row, a missing path; each against create_or_upgrade_*, create-only and open-only entry points. Oracle: "
             "current version -> opens and every row is retained; non-database / newer version -> an exception and identical bytes "
             "of the file (and of every other pre-existing file); create-only on an existing path -> DBAlreadyExists, bytes unchanged; open-only on a missing "
